@@ -70,4 +70,27 @@ PROPS = {
         "required_clauses": ["subscriber_gets_event", "event_same_id", "event_deadline", "event_trace", "no_early_completion", "completes_after_all", "non_subscriber_silent", "in_order_exactly_once"],
         "assumptions": COMMON_ASSUME,
     },
+    "C06": {
+        "level": "fault_enumeration",
+        "engine": "G",
+        "technique": "runtime monitoring with fault injection: every crash point of scripted runtime / extension processes x exit kind x configuration on the real in-process stack; table oracle on caller outcome, supervisor log (reaped-before-answer) and recovery; race-detector build",
+        "level_text": "the product {runtime: before next, after /init/error, after next, after response, idle after returning to next} + {each of 0..2 extensions: launch failure, before register, after register, after first event, after /extension/init/error, after /extension/exit/error (during init and after an event)} x exit {0, 3, SIGKILL, SIGSEGV} x invoke timing {with init in progress, after the fault} x {runtime responded first, response withheld} is enumerated; the thorough tier adds ordered double faults and pause-point delays. Oracle per statement: failure status (never a hang), body = delivered response / runtime's init-error payload / JSON naming the first fault and this request id / empty for unreported init faults, every process started before the answer reaped before it, next invocation succeeds on processes started afterwards.",
+        "level_note": "one fault per scenario in the enumerated part so that 'first fault' is unambiguous; double faults only assert the platform-shape of the body",
+        "rule": "one case = (faulty party, crash point, exit kind, number of extensions, invoke timing, response-before-fault flag[, second fault, hook delay]); distinct = distinct normalised supervisor/events/caller trace + outcome; non-trivial = every case (each injects a fault and runs a recovery invocation)",
+        "required_clauses": ["failure_status", "body_is_delivered_response", "body_is_init_error", "body_names_first_fault", "body_empty_for_init_fault", "reaped_before_answer", "recovers", "fresh_processes", "never_hangs"],
+        "exhaustive": {"quick": True, "thorough": False},
+        "assumptions": COMMON_ASSUME,
+    },
+    "C08": {
+        "level": "exploration",
+        "engine": "G",
+        "technique": "runtime monitoring, relational: the same suffix scenario is executed on an instance after (prefix, reset) and on a reference instance, and the normalised observed traces are compared; pause points enumerate the late-exit-notification orders; race-detector build",
+        "level_text": "prefixes {none, 1/3 healthy invocations, runtime /init/error, runtime crash (in flight, idle), extension crash, timeout, extension init/exit error, internal extension, double next (excess barrier arrival), reset in the middle of init, identity-filling user agent, oversized response, stubborn extension} x trigger {automatic failure/timeout reset, explicit reset} x suffix battery {2 healthy, different subscription sets, init error, crash, error response}; compared: caller outcomes and bodies, every status/body each party sees, Exec requests with complete environment digests, terminate/kill multiset, platform event multiset, internal state at the quiescent point after reset. Late notification: the events watcher is paused after recording the last exit of the old generation and resumed (i) before the orchestrator's clear, (ii) before the interop server's clear, (iii) after release, (iv) after the next invocation was dispatched.",
+        "level_note": "reference instance = trivial prefix (init completed, explicit reset) so that both runs initialise inside the first suffix invocation; map-iteration and concurrent-kill orders are compared as multisets; the held notification is always the last exit of the old generation so the pause delays nothing the reset waits for",
+        "rule": "one case = (prefix, trigger, suffix, number of extensions[, late-notification order]); two emulator instances per case; distinct = distinct case + caller outcome sequence; non-trivial = every case",
+        "required_clauses": ["suffix_equal_caller_outcomes", "suffix_equal_party_traces", "suffix_equal_exec_requests", "suffix_equal_platform_events", "state_clean_after_reset", "late_window_reached"],
+        "required_hooks": ["watchEvents.exitRecorded", "rapidCtx.beforeClear", "serverReset.beforeClear"],
+        "max_shards": 12,
+        "assumptions": COMMON_ASSUME,
+    },
 }
